@@ -238,7 +238,19 @@ def build_app(script, stack, lctx=None):
         if mw is not None:
             mws.append(mw)
     cls = falcon.App if stack == 'wsgi' else falcon.asgi.App
-    app = cls(middleware=mws, independent_middleware=script['independent'])
+    n_ctor = script.get('ctor')
+    if n_ctor is None or n_ctor >= len(mws):
+        app = cls(middleware=mws, independent_middleware=script['independent'])
+    else:
+        # "as if they had been appended to the original middleware list" (App.add_middleware)
+        first = mws[:n_ctor]
+        app = cls(middleware=(first[0] if len(first) == 1 and script.get('add_single') else first or None),
+                  independent_middleware=script['independent'])
+        if script.get('add_single'):
+            for mw in mws[n_ctor:]:
+                app.add_middleware(mw)
+        else:
+            app.add_middleware(mws[n_ctor:])
     ctx.res, ctx.falsy = build_resource(ctx, script, stack)
     app.add_route('/r', ctx.res)
     app.add_route('/f/{x}', ctx.res, suffix='f')
@@ -365,7 +377,8 @@ def _mismatch_kind(got, want):
 
 def script_key(script):
     return (script['independent'], tuple(tuple(sorted(c.items(), key=str)) for c in script['comps']),
-            tuple(map(tuple, script.get('hooks_class', ()))), tuple(map(tuple, script.get('hooks_method', ()))))
+            tuple(map(tuple, script.get('hooks_class', ()))), tuple(map(tuple, script.get('hooks_method', ()))),
+            script.get('ctor'), script.get('add_single'))
 
 
 def case_key(skey, case):
@@ -444,9 +457,9 @@ def exhaustive_plan(tier):
     """[(max components, {kind: (max faults, number of faults from which the reduced action set is used)})]"""
     if tier == 'quick':
         return [(2, {'route': (2, 2), 'sink': (2, 2), 'unrouted': (1, 2), 'nomethod': (1, 2), 'options': (1, 2),
-                     'field': (1, 2), 'falsy': (1, 2)})]
+                     'field': (1, 2), 'suffix': (1, 2), 'falsy': (1, 2)})]
     return [(2, {'route': (3, 3), 'sink': (2, 3), 'unrouted': (2, 3), 'nomethod': (2, 3), 'options': (2, 3),
-                 'field': (2, 3), 'falsy': (2, 3)}),
+                 'field': (2, 3), 'suffix': (1, 2), 'falsy': (2, 3)}),
             (3, {'route': (2, 2), 'sink': (2, 2), 'unrouted': (1, 2), 'nomethod': (1, 2), 'field': (1, 2)})]
 
 
@@ -485,7 +498,6 @@ def exhaustive(rec):
 def random_script(rng):
     n = rng.choice([0, 1, 2, 3, 3, 4, 4])
     comps = []
-    lifespan_only = False
     for _ in range(n):
         while True:
             c = {}
@@ -500,8 +512,12 @@ def random_script(rng):
     hid = itertools.count()
     hooks_class = [[rng.choice(['before', 'after']), next(hid)] for _ in range(rng.choice([0, 0, 1, 2]))]
     hooks_method = [[rng.choice(['before', 'after']), next(hid)] for _ in range(rng.choice([0, 1, 2, 3, 4]))]
-    return {'independent': rng.random() < 0.5, 'comps': comps, 'hooks_class': hooks_class,
-            'hooks_method': hooks_method}
+    script = {'independent': rng.random() < 0.5, 'comps': comps, 'hooks_class': hooks_class,
+              'hooks_method': hooks_method}
+    if n and rng.random() < 0.3:
+        script['ctor'] = rng.randrange(0, n)
+        script['add_single'] = rng.random() < 0.5
+    return script
 
 
 def random_case(rng, script, stack):
@@ -522,7 +538,10 @@ def random_case(rng, script, stack):
 def random_phase(rec, frac):
     rng = rec.rng
     n = 0
-    while rec.budget_ok(frac):
+    n_scripts = 0
+    # a minimum number of scripts by count (so the floors do not depend on machine load), then by budget
+    while n_scripts < 25 or rec.budget_ok(frac):
+        n_scripts += 1
         script = random_script(rng)
         skey = script_key(script)
         rec.seen('scripts', skey)
@@ -536,6 +555,8 @@ def random_phase(rec, frac):
                 rec.violation('build-raised', {'script': script, 'stack': stack, 'exc': repr(ex)})
                 continue
             rec.count('random.apps.' + stack)
+            if script.get('ctor') is not None:
+                rec.count('random.add_middleware_later')
             for _ in range(30):
                 case = random_case(rng, script, stack)
                 check_case(rec, script, case, app, ctx)
@@ -653,25 +674,26 @@ def set_floors(rec):
         rec.floor('mon.trace.' + stack, 2000)
         for kind in ('req', 'rsrc', 'resp', 'after', 'responder', 'sink'):
             for a in ('ret',) + MW_ACTIONS:
-                rec.floor('site.%s.%s.%s' % (stack, kind, a), 1)
+                rec.floor('site.%s.%s.%s' % (stack, kind, a), 20)
         for a in ('ret', 'http_error', 'http_status', 'app_handled', 'app_unhandled'):
-            rec.floor('site.%s.before.%s' % (stack, a), 1)
+            rec.floor('site.%s.before.%s' % (stack, a), 20)
         for a in H_ACTIONS:
-            rec.floor('site.%s.handler.%s' % (stack, a), 1)
+            rec.floor('site.%s.handler.%s' % (stack, a), 20)
         for c in ('shortcircuit.req', 'shortcircuit.rsrc', 'raise.req', 'raise.rsrc', 'raise.resp',
                   'raise.resp.then_more', 'raise.before', 'raise.after', 'after.skipped',
                   'dependent.req_raise', 'dependent.resp_dropped', 'dependent.second_resp_fault',
                   'second_resp_fault', 'responder.on_get', 'responder.on_get_f', 'responder.on_get_items',
                   'responder.sink', 'responder.404', 'responder.405', 'responder.auto_options'):
-            rec.floor('cls.%s.%s' % (stack, c), 1)
+            rec.floor('cls.%s.%s' % (stack, c), 20)
         for k in REQUESTS:
-            rec.floor('kind.%s.%s' % (stack, k), 5)
+            rec.floor('kind.%s.%s' % (stack, k), 50)
         rec.floor('random.apps.' + stack, 5)
     rec.floor('mon.lifespan', 200)
     for ev in ('lifespan.startup.failed', 'lifespan.shutdown.failed', 'lifespan.shutdown.complete'):
         rec.floor('lifespan.' + ev, 10)
     rec.floor('lifespan.ge3_handlers', 5)
     rec.floor('random.faults.3', 20)
+    rec.floor('random.add_middleware_later', 3)
 
 
 def run(rec):
